@@ -137,10 +137,66 @@ func romodHandler(w *workerCtx, line []byte) (any, error) {
 	before := snapTree(base)
 	mapBefore := fmt.Sprintf("%v", len(mapfs))
 
+	fl := "-rt"
+	del := false
+	for _, f := range s.Flags {
+		if f == "n" {
+			fl += "n"
+		}
+		if f == "delete" {
+			del = true
+		}
+	}
+	buildArgs := func(prefix string) []string {
+		args := []string{"--server", fl}
+		if del {
+			args = append(args, "--delete")
+		}
+		switch s.ArgForm {
+		case "no-server": // a hand-written client that omits the --server line: still receive mode (no --sender)
+			args = args[1:]
+		case "long":
+			args = []string{"--server", "--recursive", "--times", "--links"}
+			if strings.Contains(fl, "n") {
+				args = append(args, "--dry-run")
+			}
+			if del {
+				args = append(args, "--delete")
+			}
+		case "dup":
+			args = append([]string{"--server", "--server"}, args[1:]...)
+			args = append(args, fl)
+		}
+		target := prefix
+		switch s.Sub {
+		case "existing":
+			target = prefix + "existing/"
+		case "new":
+			target = prefix + "incoming/today/"
+		}
+		if target == "" {
+			target = "/"
+		}
+		return append(args, ".", target)
+	}
 	// ---- start the daemon side
 	a, b := xport.Conn(-1, -1, nil)
 	done := make(chan error, 1)
-	if s.Transport == "stdio" {
+	if s.Transport == "cmd" {
+		// the module handed to the server directly (rsyncd.Server.HandleConnArgs, as library users and the
+		// in-memory test servers do): no daemon handshake, the same module record
+		srv, err := drv.NewServer(mods, nil)
+		if err != nil {
+			return nil, err
+		}
+		m := mod
+		go func() {
+			conn := rsyncd.NewConnection(b, b, "cmd")
+			err := srv.HandleConnArgs(context.Background(), conn, &m, buildArgs(""))
+			b.Close()
+			done <- err
+		}()
+	} else if s.Transport == "stdio" {
 		cfg := &rsyncdconfig.Config{Modules: mods}
 		go func() {
 			osenv := &rsyncos.Env{Stdin: b, Stdout: b, Stderr: io.Discard, DontRestrict: true}
@@ -163,56 +219,29 @@ func romodHandler(w *workerCtx, line []byte) (any, error) {
 	defer a.Close()
 	// ---- the uploading client
 	rd := bufio.NewReader(a)
-	fmt.Fprintf(a, "@RSYNCD: 27\nm\n")
-	if _, err := rd.ReadString('\n'); err != nil {
-		return nil, fmt.Errorf("greeting: %v", err)
+	reply := "@RSYNCD: OK"
+	if s.Transport == "cmd" {
+		(&wirekit.W{W: a}).Int32(27)
+		if v, err := (&wirekit.R{R: rd}).Int32(); err != nil || v != 27 {
+			reply = fmt.Sprintf("version exchange: %v %v", v, err)
+		}
+	} else {
+		fmt.Fprintf(a, "@RSYNCD: 27\nm\n")
+		if _, err := rd.ReadString('\n'); err != nil {
+			return nil, fmt.Errorf("greeting: %v", err)
+		}
+		reply, _ = rd.ReadString('\n')
 	}
-	reply, _ := rd.ReadString('\n')
 	if strings.TrimSpace(reply) != "@RSYNCD: OK" {
 		obs.Reply, obs.ErrText, obs.Refused = "error", strings.TrimSpace(reply), true
 	} else {
 		obs.Reply = "ok"
-		fl := "-rt"
-		del := false
-		for _, f := range s.Flags {
-			if f == "n" {
-				fl += "n"
+		if s.Transport != "cmd" {
+			for _, x := range buildArgs("m/") {
+				fmt.Fprintf(a, "%s\n", x)
 			}
-			if f == "delete" {
-				del = true
-			}
+			fmt.Fprintf(a, "\n")
 		}
-		args := []string{"--server", fl}
-		if del {
-			args = append(args, "--delete")
-		}
-		switch s.ArgForm {
-		case "no-server": // a hand-written client that omits the --server line: still receive mode (no --sender)
-			args = args[1:]
-		case "long":
-			args = []string{"--server", "--recursive", "--times", "--links"}
-			if strings.Contains(fl, "n") {
-				args = append(args, "--dry-run")
-			}
-			if del {
-				args = append(args, "--delete")
-			}
-		case "dup":
-			args = append([]string{"--server", "--server"}, args[1:]...)
-			args = append(args, fl)
-		}
-		target := "m/"
-		switch s.Sub {
-		case "existing":
-			target = "m/existing/"
-		case "new":
-			target = "m/incoming/today/"
-		}
-		args = append(args, ".", target)
-		for _, x := range args {
-			fmt.Fprintf(a, "%s\n", x)
-		}
-		fmt.Fprintf(a, "\n")
 		raw := &wirekit.R{R: rd}
 		if seed, err := raw.Int32(); err != nil {
 			obs.Refused, obs.ErrText = true, "no seed: "+err.Error()
